@@ -88,8 +88,6 @@ class MENSRA_185Type(TREElement):
         self.add_field('C_AL_NC', 's', 9, value)
         self.add_field('C_AL_EC', 's', 9, value)
         self.add_field('C_AL_DC', 's', 9, value)
-        self.add_field('TOTAL_TILES_COLS', 's', 3, value)
-        self.add_field('TOTAL_TILES_ROWS', 's', 5, value)
 
 
 class MENSRA_185(TREExtension):
